@@ -90,12 +90,12 @@ Qed.
 (* ------------------------------------------------------------------------------------------------------------------
    Part 2: the client's Block1 requests on the wire, against ANY server *)
 
-Lemma reduce_size_spec fuel : forall target c e, fuel = Z.to_nat (e - target) ->
+Lemma reduce_size_spec fuel : forall target c e, e <= 6 -> fuel = Z.to_nat (e - target) ->
   reduce_size fuel target c e = if target <? e then (c * 2 ^ (e - target), target) else (c, e).
 Proof.
-  induction fuel as [|f IH]; intros target c e Hf; cbn [reduce_size].
+  induction fuel as [|f IH]; intros target c e He Hf; cbn [reduce_size].
   - replace (target <? e) with false by lia. reflexivity.
-  - replace (target <? e) with true by lia. rewrite IH by lia.
+  - replace (target <? e) with true by lia. replace (e =? 7) with false by lia. rewrite IH by lia.
     destruct (target <? e - 1) eqn:E.
     + f_equal. replace (e - target) with (1 + (e - 1 - target)) by lia. rewrite Z.pow_add_r by lia. lia.
     + assert (e - 1 = target) by lia. f_equal; [|lia]. replace (e - target) with 1 by lia. lia.
@@ -118,7 +118,7 @@ Proof.
   cbn [bt_wf] in Hwf. unfold bt_num, bt_more, bt_szx. cbn [fst snd].
   destruct (bn =? n); cbn [negb]; [|discriminate].
   replace (size_exp =? 7) with false by lia.
-  rewrite reduce_size_spec by reflexivity.
+  rewrite reduce_size_spec by (reflexivity || lia).
   assert (Hc : forall c cc ee, (if bs <? size_exp then (c * 2 ^ (size_exp - bs), bs) else (c, size_exp)) = (cc, ee) ->
            0 <= ee <= size_exp /\ cc * bsize ee = c * bsize size_exp).
   { intros c cc ee Heq. destruct (bs <? size_exp) eqn:E; inv Heq; [|lia]. split; [lia|].
